@@ -740,8 +740,9 @@ def deref_module(idx, named, ti, generic, entry, where=False, bounds=None):
     g = ("<G: ::core::clone::Clone>" if where is False else "<G>") if generic else ""
     w = " where G: ::core::clone::Clone" if (generic and where) else ""
     if named:
-        decl = "pub struct T%s%s { inner: %s }" % (g, w, fty)
-        acc, mk = "x.inner", "T { inner: %s }"
+        fnm = named if isinstance(named, str) else "inner"          # (a field name given as a string: raw keywords, generator locals, ..)
+        decl = "pub struct T%s%s { %s: %s }" % (g, w, fnm, fty)
+        acc, mk = "x." + fnm, "T { " + fnm + ": %s }"
     else:
         decl = "pub struct T%s(%s)%s;" % (g, fty, w)
         acc, mk = "x.0", "T(%s)"
